@@ -16,13 +16,13 @@ def check(run, tier, seed, replay=None, only=None):
     quick = tier == "quick"
     top = 100 if quick else 257
     wtop = 200 if quick else 513
-    run.extra["rule"] = ("fir1: every order 2..%d (+ sampled to 2000 thorough) x 4 types x 3 cut-off draws (+ custom windows of right and "
+    run.extra["rule"] = ("fir1: every order 2..%d (+ sampled orders up to 2000) x 4 types x 3 cut-off draws (+ custom windows of right and "
                          "wrong length); windows: 8 families x every length 3..%d x sym/periodic (+ sampled lengths to 1e5), gauss alpha "
                          "0.5..6, tukey r -0.5..1.5, kaiser beta 0..40; distinct = event records" % (top - 1, wtop - 1))
     run.trusted = ["TLC", "spec/Design.tla", "long-double closed forms and frequency-response grid (T3 clauses)"]
     stages = []
     for i, (a, b) in enumerate(ranges(2, top, 8 if quick else 16, 2)):
-        stages.append(("fir-%d" % i, ["--mode", "fir", "--a", a, "--b", b, "--seed", seed * 100 + i, "--budget", 0 if quick else 1]))
+        stages.append(("fir-%d" % i, ["--mode", "fir", "--a", a, "--b", b, "--seed", seed * 100 + i, "--budget", 1 if quick else 2, "--slo", top]))
     for i, (a, b) in enumerate(ranges(3, wtop, 2 if quick else 6, 2)):
         stages.append(("win-%d" % i, ["--mode", "win", "--a", a, "--b", b, "--seed", seed * 100 + 50 + i, "--budget", 3 if quick else 12]))
     n = simple.run_check(run, tier, seed, replay, "design_drv", "Trace_Design.tla",
